@@ -198,10 +198,16 @@ func Association[K comparable, V any](arguments ...any) col.AssociationLike[K, V
 	var value V
 
 	// Process the actual arguments.
+	var hasKey bool
 	for _, argument := range arguments {
-		switch actual := argument.(type) {
-		case K:
+		// The first argument of the key type is the key, even when the key
+		// and value types are the same.
+		if actual, isKey := argument.(K); isKey && !hasKey {
 			key = actual
+			hasKey = true
+			continue
+		}
+		switch actual := argument.(type) {
 		case V:
 			value = actual
 		default:
